@@ -56,11 +56,21 @@ func NewSlice3(base unsafe.Pointer, eltSize, cap, i, j, k int) (s Slice) {
 // SliceAppend append elem data and returns a slice.
 func SliceAppend(src Slice, data unsafe.Pointer, num, etSize int) Slice {
 	if etSize == 0 {
+		// Zero-size elements need no storage, but the result still has
+		// num more elements (and must be non-nil once it has any).
+		src.len += num
+		if src.len > src.cap {
+			src.cap = src.len
+		}
+		if src.data == nil && src.len > 0 {
+			src.data = unsafe.Pointer(&zeroVal[0])
+		}
 		return src
 	}
 	oldLen := src.len
 	src = GrowSlice(src, num, etSize)
-	c.Memcpy(c.Advance(src.data, oldLen*etSize), data, uintptr(num*etSize))
+	// The appended data may overlap the destination (append(s[:i], s[j:]...)).
+	c.Memmove(c.Advance(src.data, oldLen*etSize), data, uintptr(num*etSize))
 	return src
 }
 
